@@ -46,6 +46,10 @@ CHECKS.update({
    text="A scripted sequence of Sync requests (1-2 cancellable, then a final uncancelled one) on a replica with replication concurrency 1, 2 and default; every block fetch and the replicator's schedule points are gated; all executions with a bounded number of deviations (cancel at this step, issue next request early, fail a fetch, release another goroutine first) run to quiescence; all entries reachable from the final heads must then be visible.",
    note="Trusted: sim environment; hooks H2. One residual class is a recorded known finding (final request overlapping a not-yet-settled aborted request).",
    tech="stateless deviation-bounded schedule enumeration with cancellation and fault injection at hooked schedule points"),
+ "C02": dict(cat="model_checking", ref="5/C02",
+   text="Explicit-state search over a network of 2-3 replicating replicas: writes, delivery/drop/duplication of any in-flight topic or direct-channel message, link cuts and heals, peer restarts, within stated budgets; from every explored state a final phase (reconnect every pair, deliver everything, no further fault) is run on a fresh replay and every replica must then hold every acknowledged write and show the same state.",
+   note="Trusted: sim network semantics (fetch succeeds iff a linked peer holds the block; reconnection makes both sides see a join). Final phase uses canonical delivery order.",
+   tech="explicit-state DFS by replay over the real implementation with fault actions and a final-phase convergence oracle from every state"),
 })
 NOT_APPLICABLE = []
 ALL = ["C%02d" % i for i in range(1, 21)]
